@@ -418,6 +418,29 @@ func (e *Env) fromDef(nd nameDef) Val {
 
 func (e *Env) unary(x *EUnary) Val {
 	g := e.g
+	if x.Op == "&" {
+		// address of a field: &p.f
+		sel, ok := x.X.(*ESel)
+		if !ok {
+			e.fail("& is only supported on field selections: %s", exprString(x))
+		}
+		base := e.tr(sel.X)
+		pt, ok := base.GT.Underlying().(*types.Pointer)
+		if !ok {
+			e.fail("&x.f needs a pointer-typed x: %s", exprString(x))
+		}
+		st, ok := pt.Elem().Underlying().(*types.Struct)
+		if !ok {
+			e.fail("&x.f on a non-struct")
+		}
+		for i := 0; i < st.NumFields(); i++ {
+			if st.Field(i).Name() == sel.Sel {
+				pl := g.fieldPlaceFrom(base.Place, base.S, pt.Elem(), i)
+				return Val{S: pl.Ptr, Sort: "Ptr", GT: types.NewPointer(st.Field(i).Type()), Place: pl}
+			}
+		}
+		e.fail("no field %s", sel.Sel)
+	}
 	v := e.tr(x.X)
 	switch x.Op {
 	case "!":
